@@ -24,6 +24,7 @@ DataCmds == {"RESTORE", "DEL", "HSET", "RPUSH", "SADD", "ZADD", "SET", "PEXPIRE"
 \* ---- per command: right database, never a filtered key (C07, C06) ----
 CmdOK(c, ev) ==
   /\ ev.cmd \notin {"OPINFO"}                                  \* internal bookkeeping commands are never forwarded
+  /\ (ev.cmd = "DEL" => c.cfg.key_exists = "rewrite")           \* an existing key may only be removed under policy rewrite
   /\ ev.cmd \in DataCmds =>
     \/ \E e \in SetOf(c.entries) : e.dest_keyb = ev.keyb /\ Reach(c, e) /\ ev.db = e.dest_db
     \/ FALSE
@@ -48,13 +49,16 @@ DoneOK(c, ev) ==
         /\ (~e.chunk => Cardinality(WritersOf(e.dest_db, e.dest_keyb)) <= 1)
         /\ (~Wanted(c, e.dest_db, e.dest_keyb) => WritersOf(e.dest_db, e.dest_keyb) = {})
 FinalOK(c, ev) ==
-  LET e == Entry(c, ev.id) IN
-  IF ExpectError(c) THEN TRUE                                          \* nothing is promised about the rest of a failed run
-  ELSE IF ~Wanted(c, e.dest_db, e.dest_keyb) THEN (ev.had_pre => ev.untouched) /\ (~ev.had_pre => ~ev.present)
+  LET e == Entry(c, ev.id)
+      pol == c.cfg.key_exists
+      valueOK == /\ ev.elsewhere = 0
+                 /\ IF ev.expired_at_source THEN (ev.present => ev.match /\ ev.ttl = "ok")
+                    ELSE ev.present /\ ev.match /\ ev.ttl = (IF ev.src_expire = 0 THEN "none" ELSE "ok") IN
+  IF ~Wanted(c, e.dest_db, e.dest_keyb) THEN (ev.had_pre => ev.untouched) /\ (~ev.had_pre => ~ev.present)
   ELSE IF ~Reach(c, e) THEN TRUE        \* another entry legitimately owns this destination (several source dbs into one target.db)
-  ELSE /\ ev.elsewhere = 0
-       /\ IF ev.expired_at_source THEN (ev.present => ev.match /\ ev.ttl = "ok")
-          ELSE ev.present /\ ev.match /\ ev.ttl = (IF ev.src_expire = 0 THEN "none" ELSE "ok")
+  ELSE IF ev.had_pre /\ pol \in {"none", "ignore"} THEN ev.untouched      \* policy none / ignore: the existing key is left alone
+  ELSE IF ExpectError(c) THEN TRUE                                       \* nothing is promised about the other keys of a failed run
+  ELSE valueOK                                                           \* absent before, or policy rewrite: ends with the source value
 EventOK(ev) == CASE ev.e = "cmd" -> CmdOK(cs, ev)
                  [] ev.e = "done" -> DoneOK(cs, ev)
                  [] ev.e = "final" -> FinalOK(cs, ev)
